@@ -20,52 +20,7 @@ static std::map<std::string, std::string> g_args;
 static long long argi(const char *k, long long d) { return g_args.count(k) ? atoll(g_args[k].c_str()) : d; }
 static std::string args(const char *k, const char *d) { return g_args.count(k) ? g_args[k] : d; }
 
-static const char *stepName(PlacementStep s) {
-  switch (s) {
-    case PlacementStep::LowerBound: return "LowerBound";
-    case PlacementStep::UpperBound: return "UpperBound";
-    case PlacementStep::Detailed: return "Detailed";
-    case PlacementStep::PenaltyUpdate: return "PenaltyUpdate";
-  }
-  return "?";
-}
-
-struct Ctx {
-  int run;
-  bool withCb;
-  bool light;  // do not log LowerBound callbacks' circuits in full (size)
-};
-
-// One placement call with an observing callback; logs Begin / Cb* / EndReturn|EndThrow. Returns true if it returned.
-static bool call(const Ctx &cx, Circuit &c, const char *obj, const char *stage, const ColoquinteParameters &p) {
-  Value b = vt::ev("Begin");
-  b.set("run", cx.run).set("obj", obj).set("stage", stage).set("cb", cx.withCb);
-  vt::emit(b);
-  int idx = 0;
-  PlacementCallback cb = [&](PlacementStep s) {
-    Value e = vt::ev("Cb");
-    e.set("run", cx.run).set("obj", obj).set("step", stepName(s)).set("idx", idx++).set("circ", vp::circuitToJson(c));
-    e.set("wl", c.hpwl());
-    vt::emit(e);
-  };
-  std::optional<PlacementCallback> ocb;
-  if (cx.withCb) ocb = cb;
-  try {
-    std::string st = stage;
-    if (st == "global") c.placeGlobal(p, ocb);
-    else if (st == "legalize") c.legalize(p, ocb);
-    else c.placeDetailed(p, ocb);
-  } catch (std::exception &ex) {
-    Value e = vt::ev("EndThrow");
-    e.set("run", cx.run).set("obj", obj).set("what", ex.what()).set("circ", vp::circuitToJson(c)).set("wl", c.hpwl());
-    vt::emit(e);
-    return false;
-  }
-  Value e = vt::ev("EndReturn");
-  e.set("run", cx.run).set("obj", obj).set("circ", vp::circuitToJson(c)).set("wl", c.hpwl());
-  vt::emit(e);
-  return true;
-}
+#include "calls.hpp"
 
 static void scenario(const std::string &scen, int run, Circuit base, const ColoquinteParameters &p, bool withCb) {
   Ctx cx{run, withCb, false};
